@@ -2,7 +2,9 @@
 
 C: the composition logic of COSPricer / FFTPricer / CFBlackScholes (call = forward + put, put = call - df(fwd-K),
    butterfly, digital = df*series, cdf = 1 - digital, xi / psi / u_put closed forms, first-term-halved series,
-   Black-Scholes formulas incl. the degenerate branch) against Model/Pricers.lean through Drivers/C18.lean.
+   Black-Scholes formulas incl. the degenerate branch and the ARGUMENTS handed to norm.cdf) against Model/Pricers.lean
+   through Drivers/C18.lean; replay of the exactness theorems (cos_put_exact / cos_digital_exact) on the real COSPricer
+   for synthetic densities without truncation and series error.
 S: the property itself on the implementation, with *independent* forward F = spot*exp((r-d)T) and df = exp(-rT).
 """
 from __future__ import annotations
@@ -38,17 +40,30 @@ RULE = (
     "run only here; FFT comparisons need E[(S_T/S_0)^4] <= 1000 in addition): |phi_L(T, n*pi/(2(b-a)))| <= 1e-10 (characteristic function of the Lévy part at half the last COS "
     "frequency: excludes finite-activity pure-jump CGMY y<0, CGMY y=0 / VG with small c*T resp. T/nu, sigma~0 "
     "jump-diffusions) and strikes F*[max(0.5,e^-h), min(1.5,e^h)], h = 0.2*(b-a)/2, on uniform grids of 11/15/21 points. "
+    "Also: the same families at the edge of their declared ranges (zero jump intensity = Black-Scholes limit, HEM p = 1), every "
+    "model freshly built and rebuilt through a re-initialised parameter object, one pricer object through histories of maturities "
+    "next to a second pricer of another model, and synthetic densities that are exactly an N-term cosine polynomial on [a,b] "
+    "(N 2..7, n = N + {0,1,9,40}, random coefficients, interval (-lo, hi) with lo, hi in [0.3,1.5]) for the replay of the exactness theorems. "
     "Measured once on the unchanged tree (900 draws, seeds 0..29): inside the box doubling n and/or l changes call/spot "
     "by <= 3.6e-11 and digitals by <= 1.1e-12 (< 1e-9). Outside the box only the exact probes run (parity against the "
     "independent forward, vector == scalar, model correspondence). non-trivial = in-box case with >= 11 strikes; "
     "distinct = distinct (family, params, spot, r, d, T, strikes)."
 )
 NOT_PROVED = [
-    "truncation error of the cumulant-based COS interval [a,b] and the cosine-series truncation error (n terms): compared only",
+    "a BOUND on the two error terms of COS for the five families: (T) the mass / payoff integral outside the cumulant-based interval "
+    "[a,b] and (S) the cosine-series remainder after n terms.  Proved: with (T) = (S) = 0 the model's cosPut/cosCall/cosDigital applied "
+    "to the series the code evaluates ARE the discounted expectations (cos_put_exact, cos_digital_exact, cos_*_eq_spec_*), for any density "
+    "the series is the integral against the n-term partial sum (cos_series_is_partial_sum: no other error term), and a price function "
+    "within eps of the spec call has the no-arbitrage shape up to 2 eps (law_shape_transfer).  The size of eps is only compared "
+    "(documented box: doubling n and l moves prices by < 1e-9)",
     "discretisation (Simpson, eta=0.25, N=2^18), damping (alpha=1.5) and log-strike interpolation error of the FFT pricer: compared only",
-    "that the series value equals the expectation under the model's law (link between the implementation and the spec-level "
-    "shape theorems spec_*): the shape of the numerical prices is oracle-checked on strike grids, not proved",
-    "the characteristic functions / cumulants of the five families (C10) and scipy.stats.norm.cdf (Phi(x)+Phi(-x)=1 is a hypothesis of bs_parity)",
+    "that the closed-form characteristic functions / cumulants of the five families are the transforms of their laws (C10).  Proved "
+    "for every integrable density f with phi(u) = int f e^{iuy}: Re(phi(u_k) e^{-i u_k a}) = int f cos(u_k (y-a)) = reCoef under (T) "
+    "(cos_transform_real_part, cos_transform_is_reCoef); replayed on the implementation for synthetic cosine-polynomial densities by "
+    "probe c18.cos.exact_density",
+    "scipy.stats.norm.cdf: the Black-Scholes strike theorems (digital = -dC/dK, antitone, convex, slope in [-df,0], dropped dividend is a "
+    "contradiction) are proved from the hypotheses NormalLike (Phi' = phi, phi = c exp(-x^2/2), c > 0) and 0 <= Phi <= 1, Phi(x)+Phi(-x) = 1; "
+    "the lower bound intrinsic <= Black-Scholes call (it needs the tail behaviour of Phi at +-infinity) is oracle-checked only",
     "agreement COS ~ FFT ~ Black-Scholes and VG ~ CGMY(y=0): measured tolerances, no theorem",
 ]
 ASSUMPTIONS = [
@@ -60,9 +75,12 @@ ASSUMPTIONS = [
     "[6e-14 abs]; bounds / monotone / call-spread 1e-9*spot [0]; convexity 1e-8*spot [0]; digital in [0,df], decreasing 1e-9 [0]; "
     "log-density >= -1e-8 [5.5e-13], mass 1 +- 1e-6 [2.5e-11]; digital/df vs tail mass 1e-6 [1.8e-8]; COS-FFT 2e-7*spot [1.3e-8*spot]; "
     "COS-BS 1e-10*spot [1e-15*spot]; VG-CGMY 1e-9*spot [6e-11*spot]; vector-scalar 1e-11*spot [0]; model correspondence 2^-40 of the "
-    "cancellation-aware scale",
+    "cancellation-aware scale; exact-density replay 1e-11 of the sum of absolute terms [4e-15]; zero-intensity = BS 1e-9*spot [1e-13]",
+    "the arguments the closed form hands to norm.cdf are observed by replacing the name `norm` inside "
+    "rpylib.numerical.closedform.cfblackscholes by a recording proxy for the duration of one call",
 ]
-TRUSTED = ["numpy FFT / interp / trigonometric kernels, scipy.stats.norm.cdf, scipy.integrate.simpson (density mass)"]
+TRUSTED = ["numpy FFT / interp / trigonometric kernels, scipy.stats.norm.cdf, scipy.integrate.simpson (density mass)",
+           "mpmath.quad at 30 digits (reference integrals of the exact-density replay)"]
 
 FAMS = ["bs", "hem", "merton", "vg", "cgmy"]
 WORST = {}
@@ -365,8 +383,41 @@ def bs_probes(ctx, B, call, put, dig, fc):
         bs_model_corr(ctx, B, float(K[j]), T, float(c[j]), float(p[j]), float(g[j]), float(f[j]))
 
 
+class _CdfRecorder:
+    """stand-in for `scipy.stats.norm` inside rpylib.numerical.closedform.cfblackscholes: records every argument the
+    closed form hands to `norm.cdf` (the Phi of the model) and delegates"""
+
+    def __init__(self):
+        self.args = []
+
+    def cdf(self, x):
+        self.args.append(np.asarray(x, dtype=float).reshape(-1).copy())
+        return norm.cdf(x)
+
+
+def recorded_phi_args(cf, k, T):
+    """(args of call, args of put, args of digital) that CFBlackScholes passes to norm.cdf for the scalar strike k"""
+    import rpylib.numerical.closedform.cfblackscholes as mod
+    rec = _CdfRecorder()
+    saved = getattr(mod, "norm", None)
+    if saved is None:
+        return None                      # the module does not reach Phi through the name `norm`: arguments not observable
+    mod.norm = rec
+    try:
+        out = []
+        for fn, arg in ((cf.call, k), (cf.put, k), (cf.digital, np.array([k]))):
+            n0 = len(rec.args)
+            fn(arg, T)
+            out.append([float(a[0]) for a in rec.args[n0:]])
+    finally:
+        mod.norm = saved
+    return out
+
+
 def bs_model_corr(ctx, B, k, T, c, p, g, f):
-    """C: M's Black–Scholes composition fed with the harness' own d1, d2 (d2 = d1 - sd) and scipy's Phi values"""
+    """C: M's Black–Scholes composition fed with the harness' own lg = log(F/k), sd = sigma*sqrt(T) (F from spot, r, d) and
+    scipy's Phi values; the ARGUMENTS the implementation hands to norm.cdf (d1*flag, d2*flag in call/put, the digital's own
+    d2) are recorded and compared with M's exact rational bsD1 / bsD2 / bsDigitalArg"""
     m = B.model
     sigma = float(m.parameters.sigma)
     df, fwd = float(np.exp(-m.r * T)), float(m.spot * np.exp((m.r - m.d) * T))
@@ -381,13 +432,27 @@ def bs_model_corr(ctx, B, k, T, c, p, g, f):
     line = "bs " + " ".join(w(x) for x in (fr(1) / 10 ** 8, sigma, m.spot, T, df, fwd, k, lg, sd, *P, float(np.exp(-m.d * T))))
     out = ctx.lean(line).split(" ")
     sc = df * (fwd + k)
-    ok = (len(out) == 7 and close(c, rd(out[1]), scale=sc) and close(p, rd(out[2]), scale=sc) and close(g, rd(out[3]), scale=1)
+    ok = (len(out) == 8 and close(c, rd(out[1]), scale=sc) and close(p, rd(out[2]), scale=sc) and close(g, rd(out[3]), scale=1)
           and close(f, rd(out[4]), scale=sc))
     deg_expected = sigma < 1e-8 or m.spot < 1e-8 or T < 1e-8
     if ok and (out[0] == "1") != deg_expected:
         ok = False
+    args = None
+    if ok and not deg_expected:
+        # the arguments of Phi: M's d1, d2 and the digital's own d2 against what the code passed to norm.cdf
+        args = recorded_phi_args(m.closed_form, k, T)
+        md1, md2, mdg = rd(out[5]), rd(out[6]), rd(out[7])
+        asc = abs(lg) / sd + sd
+        want = [[md1, md2], [-md1, -md2], [mdg]]
+        if args is None or [len(a) for a in args] != [2, 2, 1]:
+            # Phi is reached another way than two / two / one calls of `norm.cdf`: nothing to compare (the values are compared above)
+            ctx.branches["c18.observation:phi_arguments_not_observable"] += 1
+        else:
+            ok = all(all(close(x, y, scale=asc) for x, y in zip(a, wv)) for a, wv in zip(args, want))
+            ctx.branches["c18.model.bs:phi_arguments_compared"] += 1
     if not ok:
-        ctx.fail("corr", "c18.model.bs", dict(B.case, k=k, T_used=T), {"name": "Drivers/C18 bs vs CFBlackScholes", "impl": [c, p, g, f], "model": out},
+        ctx.fail("corr", "c18.model.bs", dict(B.case, k=k, T_used=T), {"name": "Drivers/C18 bs vs CFBlackScholes (values and arguments of norm.cdf)",
+                                                                      "impl": [c, p, g, f], "impl_phi_args": args, "model": out},
                  cls=B.cls)
 
 
@@ -449,6 +514,31 @@ def vg_cgmy_probe(ctx, B, call):
         ctx.fail("oracle", "c18.vg_cgmy", case, {"what": "VG and its CGMY(y=0) parametrisation disagree", "K": K, "vg": call, "cgmy": c2}, cls=B.cls)
 
 
+def _bs_call_ref(spot, k, r, d, sigma, T):
+    """Black–Scholes call / digital written independently of rpylib (math.erf)"""
+    fwd = spot * math.exp((r - d) * T)
+    sd = sigma * math.sqrt(T)
+    N = lambda z: 0.5 * (1 + math.erf(z / math.sqrt(2)))
+    out_c, out_d = [], []
+    for kk in k:
+        d1 = math.log(fwd / kk) / sd + 0.5 * sd
+        out_c.append(math.exp(-r * T) * (fwd * N(d1) - kk * N(d1 - sd)))
+        out_d.append(math.exp(-r * T) * N(d1 - sd))
+    return np.array(out_c), np.array(out_d)
+
+
+def zero_intensity_probe(ctx, B, call, dig):
+    """edge of the parameter range: a jump-diffusion with zero jump intensity IS the Black–Scholes model with the same sigma"""
+    case = B.case
+    ctx.count("c18.edge.zero_intensity_is_bs", case, nontrivial=True, branch=case["fam"])
+    c, g = _bs_call_ref(B.spot, B.K, B.r, B.d, case["params"]["sigma"], B.T)
+    e1, e2 = float(np.max(np.abs(c - call))), float(np.max(np.abs(g - dig)))
+    note("edge.zero_intensity", e1, 1e-9 * B.spot)
+    if e1 > 1e-9 * B.spot or e2 > 1e-9:
+        ctx.fail("oracle", "c18.edge.zero_intensity_is_bs", case, {"what": "COS price of a jump-diffusion with zero intensity differs from Black-Scholes",
+                                                                   "K": B.K, "cos_call": call, "bs_call": c, "cos_digital": dig, "bs_digital": g}, cls=B.cls)
+
+
 def _op(cos, op, K, T, u):
     """one observable of a COSPricer at maturity T"""
     i = len(K) // 2
@@ -487,6 +577,11 @@ def reuse_probe(ctx, B, heavy):
     reused_cf = B.model.closed_form if case["fam"] == "bs" else None
     reused_fft = FFTPricer(B.model) if (hist.get("fft") and heavy) else None
     ctx.count("c18.cos.pricer_reuse", dict(base, hist=hist), nontrivial=True, branch=case["fam"])
+    # several objects in one process: a second pricer, of a Black-Scholes model (independent closed-form reference available),
+    # works at the same maturities in between; state shared between pricer objects would surface on either of them
+    nb_sigma = 0.2
+    nb_model = zoo.make_exp("bs", dict(sigma=nb_sigma), spot=spot, r=B.r, d=B.d)
+    neighbour = COSPricer(nb_model)
     seen = []
     fresh_cache = {}                              # a fresh object's value is history-free by construction: computed once per (T, op)
     for n, step in enumerate(hist["steps"]):
@@ -510,6 +605,14 @@ def reuse_probe(ctx, B, heavy):
                           "step": n, "maturities_priced_before": seen, "K": K, "reused": r_val, "fresh": f_val}, cls=B.cls)
                 return
         seen.append(t)
+        Kn = Bt.F * np.array([0.85, 1.0, 1.1])
+        nb_c, nb_g = np.asarray(neighbour.call(Kn, t)), np.asarray(neighbour.digital(Kn, t))
+        ref_c, ref_g = _bs_call_ref(spot, Kn, B.r, B.d, nb_sigma, t)
+        if not (np.max(np.abs(nb_c - ref_c)) <= 1e-9 * spot and np.max(np.abs(nb_g - ref_g)) <= 1e-9):
+            ctx.fail("oracle", "c18.cos.pricer_reuse", dict(base, hist=hist),
+                     {"what": f"a second COSPricer (Black-Scholes model) used next to the first one at T={t} differs from the closed form",
+                      "step": n, "K": Kn, "cos_call": nb_c, "bs_call": ref_c, "cos_digital": nb_g, "bs_digital": ref_g}, cls=B.cls)
+            return
         if Bt.inbox:
             bad = shape_violation(K, got["call"], got["put"], Bt.df, Bt.F, spot)
             if bad is None and (np.max(-got["digital"]) > 1e-9 or np.max(got["digital"] - Bt.df) > 1e-9 or np.max(np.diff(got["digital"])) > 1e-9):
@@ -619,6 +722,11 @@ def coefficient_corr(ctx, B, rng):
     p_small = float(np.asarray(small.put(k, T)).reshape(-1)[0])
     sc = k * df_i * float(np.sum(np.abs(terms)))
     ok = close(p_small, rd(out), scale=max(sc, 1e-300))
+    # the same put / digital with the real parts of the transform and the coefficients handed over separately: M multiplies,
+    # halves the first product and applies cosPut / cosDigital (the object `Cos.cosSeries` of the exactness theorems)
+    out_s = ctx.lean(f"series {w(df_i)} {w(k)} {wl([float(t) for t in phi.real])} {wl([float(t) for t in uk])}").split(" ")
+    sc_s = k * df_i * float(np.sum(np.abs(phi.real * uk)))
+    ok = ok and len(out_s) == 2 and close(p_small, rd(out_s[0]), scale=max(sc_s, 1e-300))
     vk = 2 / (b - a) * COSPricer.psi(np.arange(n), a, b, 0.0, b)
     vk_model = []
     psi_b = COSPricer.psi(np.arange(n), a, b, 0.0, b)
@@ -632,6 +740,129 @@ def coefficient_corr(ctx, B, rng):
     if not ok:
         ctx.fail("corr", "c18.model.series", dict(case, k=k, n=n), {"name": "Drivers/C18 terms (first term halved) vs COSPricer(n=24).put/digital",
                                                                     "impl": [p_small, d_small], "model": [out, out_d]}, cls=B.cls)
+
+
+# ---------------------------------------------------------------------------------------------------- exactness of COS (theorem tie)
+class _FakeCumulant:
+    def __init__(self, c1, c2):
+        self.c1, self.c2 = c1, c2
+
+    def cumulant1(self, t):
+        return self.c1
+
+    def cumulant2(self, t):
+        return self.c2
+
+    def cumulant4(self, t):
+        return 0.0
+
+    def cumulant6(self, t):
+        return 0.0
+
+
+class _CosPolyModel:
+    """a duck-typed model whose log-return X has, for ONE chosen strike, a log-moneyness density y = log(spot/K) + X that
+    vanishes outside the pricer's interval [a,b] and is an N-term cosine polynomial there (hypotheses (T) and (S) of
+    cos_put_exact / cos_digital_exact).  Only what COSPricer reads is provided: spot, cumulant, x0_value, df,
+    characteristic_function (of log S_T)."""
+
+    def __init__(self, spot, r, c1, c2):
+        self.spot, self.r = spot, r
+        self.cumulant = _FakeCumulant(c1, c2)
+        self.A = None
+
+    def x0_value(self):
+        return math.log(self.spot)
+
+    def df(self, t):
+        return math.exp(-self.r * t)
+
+    def set_density(self, a, b, A, x):
+        self.a, self.b, self.A, self.x = a, b, np.asarray(A, dtype=float), x
+
+    def characteristic_function(self, t, x):
+        """E exp(i u log S_T) = exp(i u (log spot - x_shift)) * int_a^b f(y) exp(i u y) dy, f = sum' A_k cos(w_k (y-a))"""
+        u = np.asarray(x, dtype=float)
+        L = self.b - self.a
+        tot = np.zeros(u.shape, dtype=complex)
+        for k, Ak in enumerate(self.A):
+            wk = k * np.pi / L
+            part = np.zeros(u.shape, dtype=complex)
+            for sgn in (1.0, -1.0):
+                z = u + sgn * wk
+                small = np.abs(z) * L < 1e-9
+                zz = np.where(small, 1.0, z)
+                val = np.where(small, L + 0j, (np.exp(1j * zz * L) - 1.0) / (1j * zz))
+                part += 0.5 * val
+            tot += (0.5 if k == 0 else 1.0) * Ak * part
+        return tot * np.exp(1j * u * self.a) * np.exp(1j * u * (math.log(self.spot) - self.x))
+
+
+def draw_exact_case(rng):
+    N = rng.randint(2, 7)
+    lo, hi = round(rng.uniform(0.3, 1.5), 3), round(rng.uniform(0.3, 1.5), 3)
+    return dict(kind="exact", spot=round(rng.uniform(20, 200), 2), r=round(rng.uniform(0, 0.08), 3), T=round(rng.uniform(0.1, 3), 2),
+                ratio=round(rng.uniform(0.7, 1.4), 3), lo=lo, hi=hi, nterms=N + rng.choice([0, 1, 9, 40]),
+                A=[round(rng.uniform(-0.6, 0.6), 3) for _ in range(N - 1)])
+
+
+def exact_density_probe(ctx, case):
+    """replays cos_put_exact / cos_digital_exact (Proofs/C18.lean) on the implementation: for a density satisfying (T) and
+    (S) the real COSPricer must return df*K*int (1-e^y)^+ f(y) dy and df*int_{y>0} f(y) dy up to rounding, the transform values
+    it evaluates must be (b-a)/2 * A_k (orthogonality), and M's `series` (halved-first sum of reCoef_k * V_k, then cosPut /
+    cosDigital) fed with those exact reCoef_k and the code's own coefficients must give the same numbers"""
+    import mpmath
+    spot, r, T = case["spot"], case["r"], case["T"]
+    K = spot * case["ratio"]
+    x = math.log(spot / K)
+    lo, hi = case["lo"], case["hi"]                       # intended a = -lo, b = hi
+    model = _CosPolyModel(spot, r, c1=(hi - lo) / 2, c2=((hi + lo) / 20.0) ** 2)
+    n = case["nterms"]
+    cos = COSPricer(model, n=n)                           # l = 10: delta = 10*sqrt(c2) = (hi+lo)/2
+    a, b = (float(v) for v in cos._interval_a_b(T))
+    ctx.count("c18.cos.exact_density", case, nontrivial=True, branch=f"N={len(case['A']) + 1}")
+    if not (a < 0 < b):
+        raise RuntimeError("exact-density generator: interval does not contain 0")
+    L = b - a
+    A = [2.0 / L] + [v * 2.0 / L for v in case["A"]]      # mass 1
+    model.set_density(a, b, A, x)
+    df = math.exp(-r * T)
+    put = float(np.asarray(cos.put(K, T)).reshape(-1)[0])
+    dig = float(np.asarray(cos.digital(K, T)).reshape(-1)[0])
+    # reference integrals, 30 digits
+    mpmath.mp.dps = 30
+    f = lambda y: sum((0.5 if k == 0 else 1.0) * mpmath.mpf(Ak) * mpmath.cos(k * mpmath.pi * (y - a) / L) for k, Ak in enumerate(A))
+    ref_put = df * K * mpmath.quad(lambda y: (1 - mpmath.exp(y)) * f(y), [a, 0])
+    ref_dig = df * mpmath.quad(f, [0, b])
+    sc = df * K * sum(abs(v) for v in A) * L
+    e1, e2 = abs(put - float(ref_put)), abs(dig - float(ref_dig))
+    note("cos.exact_put", e1, 1e-11 * sc)
+    note("cos.exact_digital", e2, 1e-11 * sc / K)
+    if not (e1 <= 1e-11 * sc and e2 <= 1e-11 * sc / K):
+        ctx.fail("corr", "c18.model.exact_density", case, {"name": "theorem cos_put_exact / cos_digital_exact vs COSPricer on a density with no "
+                                                                   "truncation and no series error", "put": put, "expected_put": float(ref_put),
+                                                           "digital": dig, "expected_digital": float(ref_dig), "a": a, "b": b, "K": K},
+                 cls=dict(family="cospoly"))
+        return
+    # M: series of exact reCoef_k = (b-a)/2 * A_k (k < N, 0 beyond: orthogonality) times the code's own coefficients
+    ks = np.arange(n)
+    re_exact = [fr(L) / 2 * fr(A[k]) if k < len(A) else fr(0) for k in range(n)]
+    up = COSPricer.u_put(ks, a, b)
+    vd = 2 / (b - a) * COSPricer.psi(ks, a, b, 0.0, b)
+    out_p = ctx.lean(f"series {w(df)} {w(K)} {wl(re_exact)} {wl([float(v) for v in up])}").split(" ")
+    out_d = ctx.lean(f"series {w(df)} 1 {wl(re_exact)} {wl([float(v) for v in vd])}").split(" ")
+    scp = K * df * float(sum(abs(float(q)) * abs(v) for q, v in zip(re_exact, up)))
+    scd = df * float(sum(abs(float(q)) * abs(v) for q, v in zip(re_exact, vd)))
+    ok = (len(out_p) == 2 and len(out_d) == 2 and abs(fr(put) - rd(out_p[0])) <= fr(1e-11) * fr(max(scp, 1e-300))
+          and abs(fr(dig) - rd(out_d[1])) <= fr(1e-11) * fr(max(scd, 1e-300)))
+    # the transform values the code evaluates, against the orthogonality prediction
+    cst = ks * np.pi / (b - a)
+    re_code = (model.characteristic_function(T, cst) * np.exp(-1j * cst * model.x0_value()) * np.exp(1j * (x - a) * cst)).real
+    if ok and float(np.max(np.abs(re_code - np.array([float(q) for q in re_exact])))) > 1e-12 * sum(abs(v) for v in A) * L:
+        ok = False
+    if not ok:
+        ctx.fail("corr", "c18.model.exact_density", case, {"name": "Drivers/C18 series (exact reCoef x code coefficients) vs COSPricer.put/digital",
+                                                           "put": put, "digital": dig, "model_put": out_p, "model_digital": out_d}, cls=dict(family="cospoly"))
 
 
 # ---------------------------------------------------------------------------------------------------- driver
@@ -651,6 +882,8 @@ def run_case(ctx, case, rng, heavy=True):
     if not B.inbox:
         return B
     shape_probes(ctx, B, call, put, dig)
+    if case.get("edge") and case["params"].get("intensity") == 0.0:
+        zero_intensity_probe(ctx, B, call, dig)
     if heavy:
         density_probe(ctx, B, dig)
     if case["fam"] == "bs":
@@ -680,6 +913,18 @@ def run(ctx):
         run_case(ctx, draw_case(rng, "cgmy", y), rng, heavy=False)
     for _ in range(ctx.n(4, 20)):
         bs_degenerate_probe(ctx, rng)
+    for _ in range(ctx.n(6, 40)):
+        exact_density_probe(ctx, draw_exact_case(rng))
+    # edge of the declared parameter ranges: zero jump intensity (the model IS Black-Scholes with the same sigma: the BS
+    # closed form is the reference), HEM p = 1 (no negative jumps)
+    for _ in range(ctx.n(1, 4)):
+        for fam, extra in (("merton", dict(intensity=0.0)), ("hem", dict(intensity=0.0)), ("hem", dict(p=1.0))):
+            case = draw_case(rng, fam)
+            case["params"] = dict(case["params"], **extra)
+            if extra.get("intensity") == 0.0:
+                case["params"]["sigma"] = max(case["params"]["sigma"], 0.05)
+            case["edge"] = True
+            run_case(ctx, case, rng, heavy=False)
     for k, (ratio, val) in sorted(WORST.items()):
         ctx.notes.append(f"worst observed {k}: {val:.3e} = {ratio:.3g} x tolerance")
 
@@ -698,5 +943,7 @@ def replay(ctx, rec):
     rng = random.Random(0)
     if case.get("kind") == "bsdeg":
         run_bs_degenerate(ctx, case)
+    elif case.get("kind") == "exact":
+        exact_density_probe(ctx, case)
     else:
         run_case(ctx, case, rng)
